@@ -30,7 +30,7 @@ type exerciser struct {
 	panics  []usePanic
 	ops     int
 	hazards int
-	seen   map[any]bool
+	seen    map[any]bool
 	// baseline: frames that panic on valid Go-built schemas as well (C04's business)
 	skipFrames map[string]bool
 }
